@@ -50,9 +50,19 @@ def three_forms(ctx, loader, obj, tag, **kw):
     """Load obj directly, from a str path and from a Path; the outcomes must agree."""
     outs = []
     p = ctx.tmp / "c13.json"
-    for form in ("object", "str", "Path"):
+    for form in ("object", "str", "Path", "relative-str"):
         if form == "object":
             arg = obj
+        elif form == "relative-str":
+            # a relative file name (the process works in the scratch directory) that looks like something else to URL
+            # machinery: a colon after a scheme-like label, a query or fragment mark, a percent sign
+            import os
+
+            os.chdir(ctx.tmp)
+            name = ["obo:c13.json", "c13.json", "a b%20c.json", "x#y.json", "http:c13.json"][ctx.n_files % 5]
+            ctx.n_files += 1
+            (ctx.tmp / name).write_text(json.dumps(obj, ensure_ascii=True), encoding="utf-8")
+            arg = name
         else:
             p.write_text(json.dumps(obj, ensure_ascii=bool(hash(tag) % 2)), encoding="utf-8")
             arg = str(p) if form == "str" else p
@@ -61,9 +71,9 @@ def three_forms(ctx, loader, obj, tag, **kw):
         if form == "object":
             first = o
     probe.evaluated("file-vs-object")
-    if not (outs[0] == outs[1] == outs[2]):
+    if not (outs[0] == outs[1] == outs[2] == outs[3]):
         violation(["C13"], "file-vs-object", "file-and-object-forms-load-differently", loader=tag, input=obj,
-                  object_form=outs[0], str_form=outs[1], path_form=outs[2])
+                  object_form=outs[0], str_form=outs[1], path_form=outs[2], relative_str_form=outs[3], relative_name=arg)
     return first
 
 
@@ -118,6 +128,7 @@ def setup(ctx):
     import rdflib
 
     ctx.rdflib = rdflib
+    ctx.n_files = 0
 
 
 def at_scale_case(ctx, g, rng):
